@@ -1797,27 +1797,27 @@ def r_pooled_layers(ctx):
     ctx.check(good, 'R15.2', 'depth-when-expanded', c, c.loc(*dw[0][0]) if dw else c.loc(bb), 'a node leaving the pool gets depth := layer counter (it may have been created many layers earlier)',
               'a node expanded from the pool keeps the depth it was created with (stale after a long arc): sub-problems handed out carry a wrong depth')
     fl = ctx.body(adt, '_finalize_layers')
-    fc = [x for x in ctx.unit(fl)[1:]]
+    ctx.unit(fl)
+    its_ = iterations(ctx, fl)
+    pool_vals = lambda t: M.is_call(t, 'values') and self_field(t[2][0], 'pool')
+    ins = [(b2, t2) for (b2, t2) in fl.calls_to('insert') if self_field(fl.origin.operand(t2['args'][0], fl.term_point(b2)), 'layers')]
     good = False
-    for c2 in fc:
-        dw2 = [(pt, d, v) for (pt, d, v, s) in writes(c2) if node_field(d, 'depth') is not None]
-        ps = c2.calls_to('push')
-        if dw2 and ps:
-            nid = node_field(dw2[0][1], 'depth')
-            pv = c2.origin.operand(ps[0][1]['args'][1], c2.term_point(ps[0][0]))
-            r = c2.reach([(0, 0)], avoid=[dw2[0][0]])
-            r2 = c2.reach([(0, 0)], avoid=[c2.term_point(ps[0][0])])
-            good = depth_counter(tag, dw2[0][2]) and id0(pv) == nid and M.is_param(pv, index=1) and not any(p in r for p in ret_points(c2)) and not any(p in r2 for p in ret_points(c2))
-            lastv = c2.origin.operand(ps[0][1]['args'][0], c2.term_point(ps[0][0]))
-            fe = [(b2, t2) for (b2, t2) in fl.calls_to('for_each')]
-            good = good and bool(fe) and M.contains(fl.origin.operand(fe[0][1]['args'][0], fl.term_point(fe[0][0])), lambda x: M.is_call(x, 'values') and self_field(x[2][0], 'pool'))
-            ins = [(b2, t2) for (b2, t2) in fl.calls_to('insert') if self_field(fl.origin.operand(t2['args'][0], fl.term_point(b2)), 'layers')]
-            if good and ins:
-                ia = [fl.origin.operand(x, fl.term_point(ins[0][0])) for x in ins[0][1]['args']]
-                r3 = fl.reach([(0, 0)], avoid=[fl.term_point(ins[0][0])])
-                good = depth_counter(tag, ia[1]) and M.simplify_field(ia[2], 'nodes', None) == lastv and not any(p in r3 for p in ret_points(fl))
-            else:
-                good = False
+    if ins:
+        ia = [fl.origin.operand(x, fl.term_point(ins[0][0])) for x in ins[0][1]['args']]
+        lastv = M.simplify_field(ia[2], 'nodes', None)
+        r3 = fl.reach([(0, 0)], avoid=[fl.term_point(ins[0][0])])
+        # (1) the layer recorded (unconditionally, under the layer counter) holds every node of the pool
+        recorded = depth_counter(tag, ia[1]) and not any(p in r3 for p in ret_points(fl)) and collects_all(ctx, fl, lastv, pool_vals, its_)
+        # (2) every one of them gets depth := layer counter (loop over the pool or over the recorded vector, any spelling)
+        deep = False
+        for it in its_:
+            if not (pool_vals(it['src']) or it['src'] == strip_iter(lastv)):
+                continue
+            w = it['where']
+            dps = [pt for (pt, d, v, s) in writes(w) if node_field(d, 'depth') is not None and (lambda ix: M.is_field(ix, '0') and it['is_item'](ix[1]))(node_field(d, 'depth')) and depth_counter(tag, v)]
+            if every_iteration_does(it, dps):
+                deep = True
+        good = recorded and deep
     ctx.check(good, 'R15.2', 'terminal-layer', fl, fl.loc(0), 'every node left in the pool gets depth := layer counter and is recorded, unconditionally, as the last layer',
               '_finalize_layers does not record every remaining pool node (with depth := layer counter) as the last layer on every path')
     # R15.3 a layer is recorded only when it has nodes (the squash guard counts layers)
